@@ -479,6 +479,128 @@ Proof.
 Qed.
 End CrossFinal.
 
+(* ---- what cross_spec lists, in words: the classes of signed literals (f and -g in one class when
+   they always differ) with at least two members, one of every mirrored pair (the one in which the
+   smallest feature occurs negatively), members by ascending feature, classes by ascending smallest
+   feature ---- *)
+Lemma find_first (p : Z -> bool) (l : list Z) (x : Z) :
+  ssorted Z.lt l -> find p l = Some x ->
+  In x l /\ p x = true /\ forall y, In y l -> p y = true -> x <= y.
+Proof.
+  induction l as [|a l IH]; intros Hs Hf; [discriminate|]. cbn [find] in Hf. destruct Hs as [Ha Hs].
+  destruct (p a) eqn:E.
+  - inversion Hf; subst. split; [now left|]. split; [exact E|].
+    intros y [<-|Hy] _; [lia|]. specialize (Ha y Hy). lia.
+  - destruct (IH Hs Hf) as [H1 [H2 H3]]. split; [now right|]. split; [exact H2|].
+    intros y [<-|Hy] Hp; [congruence|now apply H3].
+Qed.
+
+Section CrossMeaning.
+Variables (r : Z -> Z -> bool) (Rp : Z -> Z -> Prop).
+Hypothesis Hr : forall a b, r a b = true <-> Rp a b.
+Hypothesis R_refl : forall a, Rp a a.
+Hypothesis R_sym : forall a b, Rp a b -> Rp b a.
+Hypothesis R_trans : forall a b c, Rp a b -> Rp b c -> Rp a c.
+Variable cs : list Z.
+Hypothesis cs_nodup : NoDup cs.
+Hypothesis cs_pos : forall f, In f cs -> 0 < f.
+Notation s := (sortZ cs).
+Notation Ls := (flat_map (fun f => [f; - f]) cs).
+Hypothesis R_opp : forall a b, In a Ls -> In b Ls -> Rp a b -> Rp (- a) (- b).
+Hypothesis R_nself : forall a, In a Ls -> ~ Rp a (- a).
+
+Let members := cross_class_members r Rp Hr R_sym R_trans cs R_nself.
+Let hdclass := hd_cross_class r Rp Hr R_refl R_sym R_trans cs cs_nodup cs_pos R_nself.
+Let minspec := xmin_spec r Rp Hr cs cs_pos.
+
+Lemma abs_in_cs (z : Z) : In z Ls -> In (Z.abs z) cs /\ (z = Z.abs z \/ z = - Z.abs z).
+Proof.
+  intros Lz. apply in_Ls in Lz. destruct Lz as [H|H]; pose proof (cs_pos _ H).
+  - rewrite Z.abs_eq by lia. auto.
+  - replace (Z.abs z) with (- z) by lia. split; [exact H|right; lia].
+Qed.
+
+(* a class, given by a member t1, whose smallest feature g0 occurs negatively, is listed *)
+Lemma listed (t1 t2 g0 : Z) :
+  In t1 Ls -> In t2 Ls -> t1 <> t2 -> Rp t1 t2 -> In g0 cs -> Rp t1 (- g0) ->
+  (forall z, In z Ls -> Rp t1 z -> g0 <= Z.abs z) ->
+  exists c, In c (cross_spec r cs) /\ In t1 c /\ In t2 c.
+Proof.
+  intros L1 L2 Hne R12 Hg0 Rg Hmin.
+  exists (cross_class r s g0).
+  assert (M1 : In t1 (cross_class r s g0)) by (apply members; [exact Hg0|split; [exact L1|now apply R_sym]]).
+  assert (M2 : In t2 (cross_class r s g0)).
+  { apply members; [exact Hg0|]. split; [exact L2|]. apply (R_trans (- g0) t1 t2); [now apply R_sym|exact R12]. }
+  split; [|split; [exact M1|exact M2]].
+  apply (in_cross_spec r cs). exists g0. split; [exact Hg0|]. split; [|split; [reflexivity|]].
+  - apply minspec; [exact Hg0|]. intros z Lz Rz. apply Hmin; [exact Lz|]. now apply (R_trans t1 (- g0) z).
+  - destruct (cross_class r s g0) as [|x [|y c']]; cbn [length]; [destruct M1| |lia].
+    destruct M1 as [<-|[]]. destruct M2 as [<-|[]]. congruence.
+Qed.
+
+Theorem cross_spec_meaning :
+  (forall c, In c (cross_spec r cs) ->
+     (2 <= length c)%nat /\ absasc c /\ hd 0 c < 0 /\ In (hd 0 c) c /\
+     forall z, In z c <-> In z Ls /\ Rp (hd 0 c) z) /\
+  (forall l1 l2, In l1 Ls -> In l2 Ls -> l1 <> l2 -> Rp l1 l2 ->
+     exists c, In c (cross_spec r cs) /\
+               ((In l1 c /\ In l2 c) \/ (In (- l1) c /\ In (- l2) c))) /\
+  ssorted (fun c1 c2 => Z.abs (hd 0 c1) < Z.abs (hd 0 c2)) (cross_spec r cs).
+Proof.
+  split; [|split].
+  - intros c Hc. apply (in_cross_spec r cs) in Hc. destruct Hc as [f [Hf [Hmin [-> Hlen]]]].
+    pose proof (hdclass f Hf Hmin) as Hhd. pose proof (cs_pos f Hf) as Hpos.
+    split; [exact Hlen|]. split.
+    { apply cross_class_absasc; [now apply sortZ_lt|]. intros g Hg. apply sort_by_In in Hg. now apply cs_pos. }
+    rewrite Hhd. split; [lia|]. split.
+    + apply members; [exact Hf|]. split; [apply in_Ls; right; now rewrite Z.opp_involutive|apply R_refl].
+    + intros z. now apply members.
+  - intros l1 l2 L1 L2 Hne R12.
+    set (p := fun g => r l1 g || r l1 (- g)).
+    destruct (abs_in_cs l1 L1) as [Habs Hsign].
+    assert (Hp : p (Z.abs l1) = true).
+    { unfold p. apply orb_true_iff. destruct Hsign as [E|E]; [left|right]; rewrite <- E; apply Hr, R_refl. }
+    destruct (find p s) as [g0|] eqn:Ef.
+    2:{ pose proof (find_none _ _ Ef (Z.abs l1) (proj2 (sort_by_In Z.leb _ cs) Habs)) as H. congruence. }
+    destruct (find_first p s g0 (sortZ_lt cs cs_nodup) Ef) as [Hg0 [Hpg Hfirst]].
+    apply sort_by_In in Hg0.
+    assert (Hlow : forall z, In z Ls -> Rp l1 z \/ Rp l1 (- z) -> g0 <= Z.abs z).
+    { intros z Lz HRz. destruct (abs_in_cs z Lz) as [Hzabs Hzs].
+      apply Hfirst; [now apply sort_by_In|]. unfold p. apply orb_true_iff.
+      destruct HRz as [HRz|HRz], Hzs as [E|E].
+      - left. rewrite <- E. now apply Hr.
+      - right. rewrite <- E. now apply Hr.
+      - right. replace (- Z.abs z) with (- z) by lia. now apply Hr.
+      - left. replace (Z.abs z) with (- z) by lia. now apply Hr. }
+    unfold p in Hpg. destruct (r l1 (- g0)) eqn:E2.
+    + apply Hr in E2.
+      destruct (listed l1 l2 g0 L1 L2 Hne R12 Hg0 E2) as [c [Hc [M1 M2]]].
+      { intros z Lz Rz. apply Hlow; [exact Lz|now left]. }
+      exists c. split; [exact Hc|now left].
+    + rewrite orb_false_r in Hpg. apply Hr in Hpg.
+      assert (Lg : In g0 Ls) by (apply in_Ls; now left).
+      destruct (listed (- l1) (- l2) g0) as [c [Hc [M1 M2]]].
+      * now apply Ls_opp.
+      * now apply Ls_opp.
+      * lia.
+      * now apply R_opp.
+      * exact Hg0.
+      * now apply R_opp.
+      * intros z Lz Rz. apply Hlow; [exact Lz|]. right.
+        pose proof (R_opp (- l1) z (Ls_opp cs l1 L1) Lz Rz) as H. now rewrite Z.opp_involutive in H.
+      * exists c. split; [exact Hc|now right].
+  - rewrite (cross_spec_unfold r cs). apply ssorted_filter.
+    apply (proj1 (ssorted_map (fun a b : list Z => Z.abs (hd 0 a) < Z.abs (hd 0 b)) (cross_class r s)
+                               (filter (xmin r cs) s))).
+    apply (ssorted_impl_nodup Z.lt).
+    + apply NoDup_filter. apply (ssorted_NoDup Z.lt); [intros x; lia|now apply sortZ_lt].
+    + intros a b Ha Hb _ Hlt. apply filter_In in Ha, Hb. destruct Ha as [Ha Hma]. destruct Hb as [Hb Hmb].
+      apply sort_by_In in Ha, Hb. rewrite (hdclass a Ha Hma), (hdclass b Hb Hmb).
+      pose proof (cs_pos a Ha). pose proof (cs_pos b Hb). lia.
+    + apply ssorted_filter. now apply sortZ_lt.
+Qed.
+End CrossMeaning.
+
 (* ---- the property theorem, cross mode ---- *)
 Theorem atomic_cross_correct (C : circuit) (n : nat) (A : cfg) (cands : option (list Z))
         (chs : list choice) (s : scratch) :
@@ -506,4 +628,39 @@ Proof.
   - intros a La. apply Eqv_opp_self; [now apply HLs|exact Hpos].
   - exact HI.
   - exact Hcomp.
+Qed.
+
+(* ---- the two specification functions instantiated with "same value in every model containing
+   the assumptions" ---- *)
+Theorem atomic_plain_meaning (C : circuit) (n : nat) (A : cfg) (cs : list Z) : NoDup cs ->
+  (forall c, In c (classes_spec (eqvb C n A) cs) ->
+     (2 <= length c)%nat /\ ssorted Z.lt c /\
+     In (hd 0 c) c /\ forall z, In z c <-> In z cs /\ Eqv C n A (hd 0 c) z) /\
+  (forall f g, In f cs -> In g cs -> f <> g -> Eqv C n A f g ->
+     exists c, In c (classes_spec (eqvb C n A) cs) /\ In f c /\ In g c) /\
+  ssorted (fun c1 c2 => hd 0 c1 < hd 0 c2) (classes_spec (eqvb C n A) cs).
+Proof.
+  apply (classes_spec_meaning (eqvb C n A) (Eqv C n A) (eqvb_spec C n A) (Eqv_refl C n A)
+           (Eqv_sym C n A) (Eqv_trans C n A)).
+Qed.
+
+Theorem atomic_cross_meaning (C : circuit) (n : nat) (A : cfg) (cs : list Z) :
+  NoDup cs -> (forall f, In f cs -> 1 <= f <= Z.of_nat n) -> 0 < MCA C n A ->
+  let Ls := flat_map (fun f => [f; - f]) cs in
+  (forall c, In c (cross_spec (eqvb C n A) cs) ->
+     (2 <= length c)%nat /\ absasc c /\ hd 0 c < 0 /\ In (hd 0 c) c /\
+     forall z, In z c <-> In z Ls /\ Eqv C n A (hd 0 c) z) /\
+  (forall l1 l2, In l1 Ls -> In l2 Ls -> l1 <> l2 -> Eqv C n A l1 l2 ->
+     exists c, In c (cross_spec (eqvb C n A) cs) /\
+               ((In l1 c /\ In l2 c) \/ (In (- l1) c /\ In (- l2) c))) /\
+  ssorted (fun c1 c2 => Z.abs (hd 0 c1) < Z.abs (hd 0 c2)) (cross_spec (eqvb C n A) cs).
+Proof.
+  intros Hnd Hrange Hpos Ls.
+  assert (HLs : forall l, In l Ls -> 1 <= Z.abs l <= Z.of_nat n).
+  { intros l Hl. apply in_flat_map in Hl. destruct Hl as [f [Hf [<-|[<-|[]]]]]; specialize (Hrange f Hf); lia. }
+  apply (cross_spec_meaning (eqvb C n A) (Eqv C n A) (eqvb_spec C n A) (Eqv_refl C n A)
+           (Eqv_sym C n A) (Eqv_trans C n A) cs Hnd).
+  - intros f Hf. specialize (Hrange f Hf). lia.
+  - intros a b La Lb. apply Eqv_opp; [now apply HLs|now apply HLs].
+  - intros a La. apply Eqv_opp_self; [now apply HLs|exact Hpos].
 Qed.
